@@ -458,6 +458,7 @@ for o in OPT_ORDERS:
     T("opt_sched_o%d_d2" % o, "opt_sched.cpp", defs=["VORDER=%d" % o, "VDIM=2"], cflags=["-fopenmp"], libs=["-fopenmp"])
     T("opt_race_o%d_d2" % o, "opt_sched.cpp", defs=["VORDER=%d" % o, "VDIM=2", "VRACE=1"], san="tsan", libs=["-pthread"])
 T("opt_sched_o5_d3", "opt_sched.cpp", defs=["VORDER=5", "VDIM=3"], cflags=["-fopenmp"], libs=["-fopenmp"])
+T("opt_sched_noomp_o5_d2", "opt_sched.cpp", defs=["VORDER=5", "VDIM=2"])   # built WITHOUT -fopenmp: the executor's fallback branch
 for o in OPT_ORDERS:
     OPT_C10_JOBS.extend(split("opt_sched_o%d_d2" % o, 400, 1, prop="C10o"))
 
@@ -468,6 +469,7 @@ def _c12_jobs(tier):
         out += split("opt_sched_o%d_d2" % o, 1200 if tier == "quick" else 60000, 2 if tier == "quick" else 3, prop="C12")
         out += split("opt_race_o%d_d2" % o, 240 if tier == "quick" else 12000, 2 if tier == "quick" else 2, prop="C12r")
     out += split("opt_sched_o5_d3", 600 if tier == "quick" else 30000, 1, prop="C12")
+    out += split("opt_sched_noomp_o5_d2", 300 if tier == "quick" else 15000, 1, prop="C12")
     return out
 
 
@@ -516,7 +518,7 @@ _ADDED = {
     "C09": "time variables decoding below 1 ms; runs ending with the initial guess again; knot times / end time of the exposed spline; C09h re-initialisations that change one ingredient (start time only, one boundary component, one waypoint coordinate, nothing)",
     "C10": "updates identical to the previous one, identical except one ingredient, truncated or extended, with the boundary argument omitted",
     "C11": "the first accessor after construction / update drawn from {getPPolyCopy, getTrajectoryCopy, old reference, getTrajectory, getPPoly}",
-    "C12": "a fifth of the decision vectors decode to nearly-equal durations (2^-21..2^-44 apart); OpenMPExecutor also called from an outer OpenMP parallel region of 2-4 threads",
+    "C12": "a fifth of the decision vectors decode to nearly-equal durations (2^-21..2^-44 apart); OpenMPExecutor also called from an outer OpenMP parallel region of 2-4 threads, and in a binary built without -fopenmp (fallback branch)",
     "C13": "a quarter of the objects were updated after evaluating a near-identical problem; the D-dimensional answers are re-queried after all other objects were built",
     "C14": "a quarter of the objects (originals and transformed twins) were updated after evaluating a near-identical problem; mirrored gradients through getEnergyGrad and through propagateGrad(energy partials)",
     "C15": "spline copies with 1..5, 31, 32, 33, 40 segments, copy / assignment / copy of copy / trajectory copy, source updated / assigned over / destroyed, every piece probed; updating a copy leaves the source alone",
